@@ -81,6 +81,20 @@ pub fn extra(args: &[String]) {
                         }
                     }
                 }
+                // path 5: the property name itself as the START rule of the same VM, held in a short-lived String
+                // (a VM may be used for many parses and the caller's name buffers come and go)
+                if let Some(vm) = &vm {
+                    let name_buf = String::from(NAMES[i]);
+                    let got = guarded(|| vm.parse(&name_buf, s).is_ok()).unwrap_or(false);
+                    drop(name_buf);
+                    checked4 += 1;
+                    if got != exp {
+                        ndis += 1;
+                        if disagreements.len() < 50 {
+                            disagreements.push(json!({"cp": cp, "name": NAMES[i], "function": exp, "vm_as_start_rule": got}));
+                        }
+                    }
+                }
                 let got = run(0, &rule_names[i], s)["k"] == "ok";
                 checked4 += 1;
                 if got != exp {
